@@ -5,6 +5,7 @@ import DL.Model.Sel
 import DL.Gen.RuleTable
 import DL.Model.CFJson
 import DL.Model.CFRules
+import DL.Model.RegexJson
 
 /-! `dlmodel`: one JSON request per line on stdin, one JSON answer per line on stdout. -/
 open Lean (Json)
@@ -176,6 +177,7 @@ def dispatch (j : Json) : Except String Json := do
   | "recommended" => pure (Json.arr ((DL.Sel.recommended DL.Gen.ruleTable).map (fun r => Json.str r.code)).toArray)
   | "sortprio" => runSortPrio j
   | "cf" => runCf j
+  | "rx" => DL.Rx.runRx j
   | m => throw s!"unknown model {m}"
 
 end Drv
